@@ -6,9 +6,9 @@ Import ListNotations.
 From SV Require Import Utf8 Escape.
 Local Open Scope N_scope.
 
-(* char::is_control (Cc) plus the three characters YAML treats as breaks / byte order mark *)
+(* char::is_control (Cc) plus the characters YAML treats as breaks / byte order mark, and the two non-characters it rejects *)
 Definition needs_u_escape (c : N) : bool :=
-  (c <? 32) || ((127 <=? c) && (c <=? 159)) || (c =? 8232) || (c =? 8233) || (c =? 65279).
+  (c <? 32) || ((127 <=? c) && (c <=? 159)) || (c =? 8232) || (c =? 8233) || (c =? 65279) || (c =? 65534) || (c =? 65535).
 Definition hex4 (c : N) : list N := [hexd (c / 4096); hexd ((c / 256) mod 16); hexd ((c / 16) mod 16); hexd (c mod 16)].
 Definition quote_char (c : N) : list N :=
   if c =? 34 then [92; 34]
